@@ -9,4 +9,5 @@ open Emboss.View
 #print axioms C20_equals_ignores_padding_partial
 #print axioms C20_copy_dest_equals_src_partial
 #print axioms C20_equals_iff_logical_partial
+#print axioms C20_equals_iff_logical_nested_partial
 #print axioms C20_equals_reflexive_partial
